@@ -462,3 +462,823 @@ def intensities(case, ctx):
     want_v = float(np.max(0.01 * cumulative_trapezoid(np.abs(psv))))
     ctx.check(abs(asi - want_a) <= 1e-12 * want_a + core.TINY, "calc_asi %r != %r" % (asi, want_a))
     ctx.check(abs(vsi - want_v) <= 1e-12 * want_v + core.TINY, "calc_vsi %r != %r" % (vsi, want_v))
+
+
+# ---------------------------------------------------------------------------
+# mid-range sizes and option interactions (DESIGN 8.5).  A code path that exists only inside a window of sizes - a blocked or
+# streamed variant above some record length / number of periods / product of the two (x refinement sub-steps for the object API) -
+# is invisible to the Hypothesis generators above (<= 1500 samples, <= 8 periods).  The enumerations below walk size ladders
+# (gen.ladder / gen.size_ladder / gen.product_pairs: one size per logarithmic bin, placed by a hash of VERIF_SEED) for every
+# public function the property anchors and for every size dimension it has.
+#
+# Reference: the exact response (long-double matrix exponentials of pbt/ref/sdof.py) stepped through the record by cyclic
+# reduction (pbt/ref/sdof_scan.py) instead of a sample-by-sample Python loop - O(N) vectorised, so the whole series of the sampled
+# oscillators is available at 1e5..1e6 samples.  Tolerances are those of the clauses above (C01 bound on the robust scale for the
+# exact reference; equality for the differential relations between two entry points; c*eps*sum|terms| for the energy sums).
+#
+# Data: noise on a non-zero mean with three resonant bursts - an early one tuned to the longest period, one at a hash-chosen
+# position tuned to a middle period and one that grows up to the very last sample tuned to the shortest period >= 6 dt - and an
+# optional spike (first / last / hash-chosen sample) that sets the PGA and the peak of the quasi-static (T < dt) oscillators: the
+# peaks of different rows of one call lie in the first block, in the middle and in the last few samples of the record, so a
+# reduction over time that loses its head, a seam block or its tail changes some row.
+
+from pbt.ref import sdof_scan as scanref  # noqa: E402
+import hashlib as _hashlib  # noqa: E402
+
+MID_DTS = [0.01, 0.005, 0.0078125, 0.02, 0.0025]
+MID_XIS = [0.05, 0.02, 0.1, 0.2]
+MID_SPIKES = ["last", "first", "mid", "none"]
+MID_CONTAINERS = ["ndarray", "list", "ndarray", "tuple"]
+THOROUGH = core.tier() != "quick"
+# reference budget: (sampled oscillators) x (samples) handled by the long-double scan per call (~0.3 us per cell)
+REF_CELLS = 4.0e6 if THOROUGH else 1.2e6
+
+
+def _hh(*parts):
+    s = ":".join(str(p) for p in ("c03-mid", gen.run_seed()) + parts)
+    return int(_hashlib.blake2b(s.encode(), digest_size=8).hexdigest(), 16)
+
+
+def _pick(seq, *parts):
+    return seq[_hh(*parts) % len(seq)]
+
+
+def _est_iter_s(p):
+    """Measured cost of one step of the library's time loop with p oscillators (seconds; quiet machine)."""
+    return 12e-6 + 0.11e-6 * p
+
+
+def _mid_ratios(case):
+    """T/dt of the oscillators of a mid-range case (ascending)."""
+    p = int(case["p"])
+    if case.get("template"):
+        u = np.random.RandomState(case["seed"] % (2 ** 31 - 1)).uniform(0.92, 1.08, 5)
+        return (np.array([0.45, 3.3, 7.3, 31.0, 117.0]) * u)[:max(1, p)] if p < 5 else np.array([0.45, 3.3, 7.3, 31.0, 117.0]) * u
+    lo, hi = float(case["rlo"]), float(case["rhi"])
+    if p == 1:
+        return np.array([math.sqrt(lo * hi)])
+    return np.geomspace(lo, hi, p)
+
+
+def _mid_record(n, seed, ratios, spike):
+    rs = np.random.RandomState(seed % (2 ** 31 - 1))
+    a = 0.04 * rs.standard_normal(n) + 0.01
+    r = sorted(float(x) for x in ratios if x >= 6.2)
+    if not r:
+        r = [8.0, 30.0, 100.0]
+    cap = max(8.0, n / 40.0)
+    r_end, r_mid, r_early = min(r[0], cap), min(r[len(r) // 2], cap), min(r[-1], cap)
+    le = int(min(n // 5, max(120, 5 * r_early)))
+    s0 = min(40, n // 50)
+    if le > 2:
+        a[s0:s0 + le] += np.sin(2 * np.pi * np.arange(le) / r_early)
+    lm = int(min(n // 5, max(120, 8 * r_mid)))
+    pos = int(n * (0.3 + 0.4 * rs.rand()))
+    if lm > 2:
+        a[pos:pos + lm] += 0.9 * np.sin(2 * np.pi * np.arange(lm) / r_mid)
+    ln = int(min(n // 4, max(160, 20 * r_end)))
+    if ln > 2:
+        j = np.arange(ln)
+        a[n - ln:] += 1.2 * ((j + 1.0) / ln) ** 2 * np.sin(2 * np.pi * j / r_end + 0.3)
+    at = int(n * (0.15 + 0.7 * rs.rand()))
+    if spike == "first":
+        a[0] = 3.0
+    elif spike == "last":
+        a[-1] = -3.0
+    elif spike == "mid":
+        a[at] = 3.0
+    return a
+
+
+def _container(T, kind, lead0):
+    T = list(np.asarray(T, dtype=float))
+    if lead0:
+        T = [0.0] + T
+    if kind == "list":
+        return [float(t) for t in T]
+    if kind == "tuple":
+        return tuple(float(t) for t in T)
+    return np.array(T)
+
+
+def _sample_rows(p, budget, seed):
+    """Row indices (sorted) of the oscillators evaluated by the reference: the first and last ones, every index that is
+    -1, 0, 1 modulo 2^k (k = 12..5, seams of power-of-two blocks) and hash-chosen ones, cut to the budget (never below 4)."""
+    budget = int(max(4, budget))
+    if p <= budget:
+        return np.arange(p)
+    order = [0, p - 1, 1, p - 2, 2]
+    rs = np.random.RandomState(seed % (2 ** 31 - 1))
+    rnd = list(rs.permutation(p)[:budget])
+    seams = []
+    for k in range(12, 4, -1):
+        b = 2 ** k
+        for m in range(b, p, b):
+            seams.extend([m, m - 1, m + 1])
+    # interleave seams and random rows so that a small budget still has both
+    mix = []
+    for i in range(max(len(seams), len(rnd))):
+        if i < len(seams):
+            mix.append(seams[i])
+        if i < len(rnd):
+            mix.append(rnd[i])
+    out = []
+    seen = set()
+    for i in order + mix:
+        i = int(i)
+        if 0 <= i < p and i not in seen:
+            seen.add(i)
+            out.append(i)
+            if len(out) >= budget:
+                break
+    return np.array(sorted(out))
+
+
+def _exact_rows(a, dt, T, xi, idx):
+    """Exact u, v (float64 copies of the long-double series) of the oscillators idx, their robust scales and C01 tolerances."""
+    Ti = np.asarray(T, dtype=float)[idx]
+    u, v = scanref.response_exact(a, dt, ref.library_periods(Ti), xi)
+    su, sv, _, _ = ref.robust_scales(a, dt, Ti, u, v)
+    dur = (len(a) - 1) * dt
+    r = Ti / dt
+    tol = np.where(r >= 1000, ref.tol_c01(dur, Ti, dt, relaxed=True), ref.tol_c01(dur, Ti, dt)) + scanref.scan_slack(len(a))
+    return u, v, su, sv, tol
+
+
+def _bands(T, dt):
+    """Vectorised 6-step rule: arrays (below, above, amb) of booleans, exact rational decision near the boundary."""
+    T = np.asarray(T, dtype=float)
+    rel = T / (6.0 * dt)
+    below = rel < 1 - 1e-9
+    above = rel > 1 + 1e-9
+    amb = np.zeros(len(T), dtype=bool)
+    for j in np.nonzero(~(below | above))[0]:
+        b = _band(T[j] / dt, T[j], dt)
+        below[j], above[j], amb[j] = b == "below", b == "above", b == "amb"
+    return below, above, amb
+
+
+def _common_spectra_checks(ctx, name, out, npd):
+    ctx.check(len(out) == 3, "%s does not return three spectra" % name)
+    res = []
+    for lab, x in zip(("S_d", "S_v", "S_a"), out):
+        x = np.asarray(x)
+        ctx.shape(x, (npd,), "%s %s" % (name, lab))
+        ctx.finite(x, "%s %s" % (name, lab))
+        ctx.check(bool(np.all(x >= 0)), "%s %s has negative entries" % (name, lab))
+        res.append(x)
+    return res
+
+
+def _pseudo_rules(ctx, name, T, dt, s, sd, sv, sa, pga, step=None):
+    """S_v == w S_d; S_a == w^2 S_d for T >= 6 steps, PGA below (either at the boundary); T = 0 entry.  `step` (object API): the
+    integration step h <= dt replaces dt, so for 6h <= T < 6dt either value is admissible."""
+    w = 2 * np.pi / T
+    if s:
+        ctx.check(sd[0] == 0 and sv[0] == 0 and sa[0] == pga, "%s at T=0: S_d=%r S_v=%r S_a=%r (PGA %r)" % (name, sd[0], sv[0], sa[0], pga))
+    ctx.close(sv[s:], w * sd[s:], 1e-12 * w * sd[s:], "%s S_v vs w*S_d" % name)
+    want = w ** 2 * sd[s:]
+    is_pseudo = np.abs(sa[s:] - want) <= 1e-12 * want + core.TINY
+    is_pga = sa[s:] == pga
+    below, above, amb = _bands(T, dt)
+    if np.any(amb):
+        ctx.amb()
+    bad = above & ~is_pseudo
+    if np.any(bad):
+        j = int(np.argmax(bad))
+        ctx.fail("%s S_a[%d]=%r != w^2 S_d=%r although T/dt=%r >= 6" % (name, j, sa[s + j], want[j], T[j] / dt))
+    if step is None:
+        bad = below & ~is_pga
+        if np.any(bad):
+            j = int(np.argmax(bad))
+            ctx.fail("%s S_a[%d]=%r != PGA=%r for T/dt=%r < 6" % (name, j, sa[s + j], pga, T[j] / dt))
+    else:
+        bad = ~above & ~(is_pga | is_pseudo)
+        if np.any(bad):
+            j = int(np.argmax(bad))
+            ctx.fail("%s S_a[%d]=%r is neither w^2 S_d=%r nor PGA=%r" % (name, j, sa[s + j], want[j], pga))
+        bad = (T < 6 * step * (1 - 1e-9)) & ~is_pga
+        if np.any(bad):
+            j = int(np.argmax(bad))
+            ctx.fail("%s S_a[%d]=%r != PGA=%r for T below 6 integration steps" % (name, j, sa[s + j], pga))
+    bad = amb & ~(is_pga | is_pseudo)
+    if np.any(bad):
+        ctx.fail("%s S_a at T=6dt is neither w^2 S_d nor PGA" % name)
+
+
+def _row_chunks(p, n, cells=2.0e6):
+    step = int(max(1, cells // max(1, n)))
+    for i0 in range(0, p, step):
+        yield i0, min(p, i0 + step)
+
+
+# --- array functions ------------------------------------------------------------------------------------------------------
+
+def _array_case_list(tier):
+    th = tier != "quick"
+    tg = "t:" if th else ""
+    cases = []
+
+    def add(kind, n, p, i, fns, **kw):
+        c = {"kind": kind, "n": int(n), "p": int(p), "fns": list(fns), "seed": _hh(tg, "arr", kind, i, n, p) % (2 ** 31 - 1),
+             "dt": _pick(MID_DTS, tg, "dt", kind, i), "xi": _pick(MID_XIS, tg, "xi", kind, i),
+             "spike": MID_SPIKES[i % len(MID_SPIKES)], "container": _pick(MID_CONTAINERS, tg, "cont", kind, i), "lead0": bool(i % 2)}
+        c.update(kw)
+        cases.append(c)
+
+    # (a) record length, a handful of oscillators on both sides of 6 dt
+    hi = 1000000 if th else 130000
+    sizes = sorted(set(gen.ladder(2000, hi, 22 if th else 9, tg + "c03:len")) | set(gen.mined_sizes(2000, hi, 4 if th else 2, tg + "c03:len")))
+    for i, n in enumerate(sizes):
+        if 3 * n * _est_iter_s(6) <= 2.0:
+            add("len", n, 5, i, ["series", "pseudo", "true"], template=True)
+        else:  # one entry point per case (each walks the record once)
+            for f in ("series", "pseudo", "true"):
+                add("len", n, 5, i, [f], template=True)
+    # (b) number of oscillators, short record; with and without the leading 0
+    for i, p in enumerate(gen.size_ladder(1, 9000 if th else 5000, 30 if th else 14, tg + "c03:per", mined_limit=10 if th else 6)):
+        n = 200 + _hh(tg, "pern", i) % 500
+        for lead0 in (False, True):
+            add("periods", n, p, 2 * i + int(lead0), ["series", "pseudo", "true"], lead0=lead0, xi=_pick([0.0] + MID_XIS, tg, "pxi", i, lead0),
+                rlo=_pick([0.53, 2.1, 7.7], tg, "rlo", i), rhi=_pick([61.0, 290.0], tg, "rhi", i))
+    # (c) products oscillators x samples
+    pairs = gen.product_pairs(1e5, 4e7 if th else 1.0e7, 20 if th else 8, (6, 4000), (300, 200000 if th else 40000), tg + "c03:prod")
+    for i, (p, n) in enumerate(pairs):
+        kw = dict(rlo=_pick([0.53, 2.1], tg, "prlo", i), rhi=_pick([61.0, 290.0], tg, "prhi", i), xi=_pick([0.0] + MID_XIS, tg, "prxi", i))
+        if 3 * n * _est_iter_s(p) <= 2.0:
+            add("product", n, p, i, ["series", "pseudo", "true"], **kw)
+        else:
+            add("product", n, p, i, ["series"], **kw)
+            add("product", n, p, i, ["pseudo", "true"], **kw)
+    cases.sort(key=lambda c: -len(c["fns"]) * c["n"] * _est_iter_s(c["p"]))
+    return cases
+
+
+def _shard(cases, shard, nshards):
+    for i, c in enumerate(cases):
+        if i % nshards == shard:
+            yield c
+
+
+def _array_enum(tier, shard, nshards):
+    return _shard(_array_case_list(tier), shard, nshards)
+
+
+@enum_clause(CLAUSES, "mid-range", _array_enum, quick_shards=4,
+             rule="response_series / pseudo_response_spectra / true_response_spectra on (a) record-length ladder 2000..130000 samples "
+                  "(thorough 1e6) with five oscillators T/dt ~ 0.45, 3.3, 7.3, 31, 117, (b) 1..5000 (9000) oscillators log-spaced over "
+                  "[0.5..8, 60..290] dt on 200-700 samples, with and without leading 0, (c) products oscillators x samples 1e5..1e7 (4e7); "
+                  "plus sizes mined from integer literals of the source; burst records with the peaks of different rows at the start, "
+                  "middle and end, spike first/last/mid/none, periods as ndarray/list/tuple",
+             oracle="reference model: whole u, v series (sampled rows: first/last, power-of-two seams, hash-chosen; all rows when "
+                    "rows x samples <= 1.2e6) and S_d / true S_v / true S_a vs the exact long-double series within the C01 bound on the "
+                    "robust scale; differential (exact, all rows): spectra == max|.| of response_series rows, pseudo S_d == true S_d; third "
+                    "series == -(2 xi w v + w^2 u) of the returned u, v (1e-8, all rows); pseudo relations and PGA rule on all rows",
+             exhaustive_note="the size ladders of this run (hash of VERIF_SEED), not the whole size range")
+def mid_range(case, ctx):
+    n, dt, xi, lead0 = case["n"], case["dt"], case["xi"], case["lead0"]
+    ratios = _mid_ratios(case)
+    T = ratios * dt
+    npd = len(T) + (1 if lead0 else 0)
+    s = 1 if lead0 else 0
+    a = _mid_record(n, case["seed"], ratios, case["spike"])
+    P = _container(T, case["container"], lead0)
+    fns = case["fns"]
+    ctx.cls("kind=" + case["kind"], "n>=%d" % (10 ** int(math.log10(n))), "p>=%d" % (10 ** int(math.log10(max(1, len(T))))),
+            "cells>=1e%d" % int(math.log10(n * npd)), "lead0" if lead0 else None, "spike=" + case["spike"], "periods=" + case["container"],
+            "xi=0" if xi == 0 else None, *["fn=" + f for f in fns])
+    ctx.nt(True)
+    pga = float(np.max(np.abs(a)))
+    idx = _sample_rows(len(T), REF_CELLS // n, case["seed"])
+    ctx.cls("all-rows-exact" if len(idx) == len(T) else "sampled-rows-exact")
+    u, v, su, sv, tol = _exact_rows(a, dt, T, xi, idx)
+    pu = np.max(np.abs(u), axis=1).astype(float)
+    pv = np.max(np.abs(v), axis=1).astype(float)
+    wl = ref.LIB_TWO_PI / T[idx]
+    below_i, above_i, amb_i = _bands(T[idx], dt)
+    ru = rv = ra = None
+    if "series" in fns:
+        ru, rv, ra = [np.asarray(x) for x in ctx.lib(sdof.response_series, a, dt, P, xi)]
+        for name, x in (("displacement", ru), ("velocity", rv), ("acceleration", ra)):
+            ctx.shape(x, (npd, n), "response " + name)
+        ctx.finite(ru, "response displacement")
+        ctx.finite(rv, "response velocity")
+        ctx.finite(ra, "response acceleration")
+        ctx.close(ru[s + idx], u.astype(float), (tol * su)[:, None] + np.zeros((1, n)), "displacement series vs the exact series")
+        ctx.close(rv[s + idx], v.astype(float), (tol * sv)[:, None] + np.zeros((1, n)), "velocity series vs the exact series")
+        if s:
+            ctx.check(not np.any(ru[0]) and not np.any(rv[0]), "T=0 row of the displacement / velocity series is not zero")
+            ctx.equal(np.abs(ra[0]), np.abs(a), "|T=0 row of the acceleration series| vs |record|")
+        w = (2 * np.pi / T)[:, None]
+        for i0, i1 in _row_chunks(len(T), n):
+            t1 = 2 * xi * w[i0:i1] * rv[s + i0:s + i1]
+            t2 = w[i0:i1] ** 2 * ru[s + i0:s + i1]
+            scale = np.max(np.abs(t1) + np.abs(t2), axis=1)[:, None]
+            ctx.close(ra[s + i0:s + i1], -(t1 + t2), 1e-8 * scale + 0 * t1, "third series vs -(2 xi w v + w^2 u)")
+    psd = tsd = None
+    if "pseudo" in fns:
+        psd, psv, psa = _common_spectra_checks(ctx, "pseudo_response_spectra", ctx.lib(sdof.pseudo_response_spectra, a, dt, P, xi), npd)
+        ctx.close(psd[s + idx], pu, tol * su, "pseudo S_d vs peak of the exact displacement")
+        _pseudo_rules(ctx, "pseudo_response_spectra", T, dt, s, psd, psv, psa, pga)
+        if ru is not None:
+            ctx.equal(psd, np.max(np.abs(ru), axis=1), "pseudo S_d vs max|u| of response_series")
+    if "true" in fns:
+        tsd, tsv, tsa = _common_spectra_checks(ctx, "true_response_spectra", ctx.lib(sdof.true_response_spectra, a, dt, P, xi), npd)
+        ctx.close(tsd[s + idx], pu, tol * su, "true S_d vs peak of the exact displacement")
+        ctx.close(tsv[s + idx], pv, tol * sv, "true S_v vs peak of the exact velocity")
+        below, above, amb = _bands(T, dt)
+        if np.any(amb):
+            ctx.amb()
+        if s:
+            ctx.check(tsd[0] == 0 and tsv[0] == 0 and tsa[0] == pga, "true spectra at T=0: %r %r %r (PGA %r)" % (tsd[0], tsv[0], tsa[0], pga))
+        bad = below & ~(tsa[s:] == pga)
+        if np.any(bad):
+            j = int(np.argmax(bad))
+            ctx.fail("true S_a[%d]=%r != PGA %r for T/dt=%r < 6" % (j, tsa[s + j], pga, ratios[j]))
+        # total acceleration of the exact series (for the angular frequency the library's series use)
+        at = np.max(np.abs(2 * xi * wl[:, None] * v + (wl ** 2)[:, None] * u), axis=1).astype(float)
+        tol_a = tol * (2 * xi * wl * sv + wl ** 2 * su)
+        ok = np.where(above_i, np.abs(tsa[s + idx] - at) <= tol_a + core.TINY, True) & \
+            np.where(amb_i, (np.abs(tsa[s + idx] - at) <= tol_a + core.TINY) | (tsa[s + idx] == pga), True)
+        if not np.all(ok):
+            j = int(np.argmin(ok))
+            ctx.fail("true S_a[%d]=%r vs peak total acceleration of the exact series %r (tol %.3g, T/dt=%r)" % (
+                idx[j], tsa[s + idx[j]], at[j], tol_a[j], ratios[idx[j]]))
+        if ru is not None:
+            ctx.equal(tsd, np.max(np.abs(ru), axis=1), "true S_d vs max|u| of response_series")
+            ctx.equal(tsv, np.max(np.abs(rv), axis=1), "true S_v vs max|v| of response_series")
+            amax = np.max(np.abs(ra), axis=1)
+            bad = above & ~(tsa[s:] == amax[s:])
+            if np.any(bad):
+                j = int(np.argmax(bad))
+                ctx.fail("true S_a[%d]=%r != max|a_total|=%r (T/dt=%r)" % (j, tsa[s + j], amax[s + j], ratios[j]))
+            bad = amb & ~((tsa[s:] == amax[s:]) | (tsa[s:] == pga))
+            ctx.check(not np.any(bad), "true S_a at T=6dt is neither max|a_total| nor PGA")
+        if psd is not None:
+            ctx.equal(tsd, psd, "true S_d vs pseudo S_d")
+            if xi == 0:
+                d = np.abs(tsa[s:] - psa[s:]) <= 1e-8 * np.maximum(tsa[s:], psa[s:]) + core.TINY
+                bad = above & ~d
+                if np.any(bad):
+                    j = int(np.argmax(bad))
+                    ctx.fail("xi=0: true S_a %r != pseudo S_a %r (row %d)" % (tsa[s + j], psa[s + j], j))
+
+
+# --- object API -----------------------------------------------------------------------------------------------------------
+
+SCREEN_S = 3.0 if THOROUGH else 0.8  # all-rows differential against the array function when its estimated cost is below this
+
+
+def _check_object(ctx, a, dt, P, xi, ratio, spectra, seed, what=""):
+    """The object-API sentence of the statement for one reading of (s_d, s_v, s_a); the oracle of clause object-api with the exact
+    reference in place of the library's array function on the sampled rows, and the array function as an all-rows screen."""
+    a = np.asarray(a, dtype=float)
+    n = len(a)
+    P = np.asarray(P, dtype=float)
+    s = 1 if P[0] == 0 else 0
+    T = P[s:]
+    name = "AccSignal" + what
+    sd, sv, sa = _common_spectra_checks(ctx, name, spectra, len(P))
+    pga = float(np.max(np.abs(a)))
+    hstar = max(float(np.min(T)) / 20.0, dt / ratio)
+    raw = [np.asarray(x) for x in sdof.pseudo_response_spectra(a, dt, P, xi)]
+    if hstar >= dt:
+        ctx.cls("no-interp")
+        ctx.equal(sd, raw[0], name + ".s_d vs array function on the raw record (no interpolation needed)")
+        ctx.equal(sv, raw[1], name + ".s_v vs array function on the raw record")
+        ctx.equal(sa, raw[2], name + ".s_a vs array function on the raw record")
+        return 1
+    ctx.cls("interp")
+    kmin = int(math.ceil(dt / hstar * (1 - 1e-12)))
+    idx = _sample_rows(len(T), REF_CELLS // (n * kmin), seed)
+    found = None
+    for k in range(kmin, 2 * kmin + 2):
+        ak = _refined(a, k, True)
+        u, _, su, _, tol = _exact_rows(ak, dt / k, T, xi, idx)
+        au = np.abs(u)
+        hi = np.max(au, axis=1).astype(float)
+        lo = np.max(au[:, :(n - 1) * k + 1], axis=1).astype(float)  # causal: the record without the held tail is a prefix
+        if np.all(sd[s + idx] >= lo - tol * su - core.TINY) and np.all(sd[s + idx] <= hi + tol * su + core.TINY):
+            found = k
+            break
+    ctx.check(found is not None,
+              "%s S_d at rows %r = %r is not the peak of the exact response of the record refined to any step dt/k, k in [%d, %d] "
+              "(h*=%.4g, dt=%.4g, min_dt_ratio=%r, %d samples, %d periods)" % (
+                  name, idx[:6].tolist(), sd[s + idx][:6].tolist(), kmin, 2 * kmin + 1, hstar, dt, ratio, n, len(P)))
+    ctx.cls("k=kmin" if found == kmin else "k>kmin")
+    _pseudo_rules(ctx, name, T, dt, s, sd, sv, sa, pga, step=dt / found)
+    dur = (n - 1) * dt
+    w = 2 * np.pi / T
+    su_all = np.maximum(raw[0][s:], pga * np.minimum(dt * dt / 2, 1.0 / w ** 2))
+    tolr = ref.tol_c01(dur, T, dt, relaxed=True) + ref.tol_c01(dur, T, dt / found, relaxed=True)
+    bad = ~(sd[s:] >= raw[0][s:] - tolr * su_all - core.TINY)
+    if np.any(bad):
+        j = int(np.argmax(bad))
+        ctx.fail("%s S_d[%d]=%r below the raw-sample S_d %r" % (name, j, sd[s + j], raw[0][s + j]))
+    if len(idx) < len(T) and n * found * _est_iter_s(len(P)) <= SCREEN_S:
+        ctx.cls("all-rows-screen")
+        lib = [np.asarray(x) for x in sdof.pseudo_response_spectra(_refined(a, found, True), dt / found, P, xi)]
+        if not (np.array_equal(sd, lib[0]) and np.array_equal(sv, lib[1])):
+            # some row differs from the array function at the step found on the sampled rows: decide by the oracle of clause
+            # object-api on every row (sandwich between the array function without / with the held tail, 1e-9 of scale)
+            ok2 = False
+            for k in range(kmin, 2 * kmin + 2):
+                lo = np.asarray(sdof.pseudo_response_spectra(_refined(a, k, False), dt / k, P, xi)[0])
+                hi = lib[0] if k == found else np.asarray(sdof.pseudo_response_spectra(_refined(a, k, True), dt / k, P, xi)[0])
+                slack = 1e-9 * su_all
+                if np.all(sd[s:] >= np.minimum(lo, hi)[s:] - slack) and np.all(sd[s:] <= np.maximum(lo, hi)[s:] + slack):
+                    ok2 = True
+                    break
+            bad = np.nonzero(sd != lib[0])[0]
+            ctx.check(ok2, "%s S_d differs from the array function on the record refined %d x at %d rows (first %r: %r vs %r) and is not "
+                           "the spectrum of the record integrated at any step dt/k, k in [%d, %d]" % (
+                               name, found, len(bad), bad[:3].tolist(), sd[bad[:3]].tolist(), lib[0][bad[:3]].tolist(), kmin, 2 * kmin + 1))
+    return found
+
+
+def _object_ratios(case):
+    p = int(case["p"])
+    lo, hi = float(case["rlo"]), float(case["rhi"])
+    return np.array([lo]) if p == 1 else np.geomspace(lo, hi, p)
+
+
+def _object_case_list(tier):
+    th = tier != "quick"
+    tg = "t:" if th else ""
+    cases = []
+    vias = ["gen", "ctor", "cached-then-ratio", "gen", "gen-default-xi", "bare-ratio"]
+    rlos = [0.47, 3.1, 7.4, 0.61, 12.9, 2.3]
+    ks = [4, 8, 2]
+
+    def add(kind, n, p, i, ratio, **kw):
+        c = {"kind": kind, "n": int(n), "p": int(p), "seed": _hh(tg, "obj", kind, i, n, p) % (2 ** 31 - 1), "min_dt_ratio": ratio,
+             "dt": _pick(MID_DTS, tg, "odt", kind, i), "xi": _pick([0.0] + MID_XIS, tg, "oxi", kind, i), "via": vias[i % len(vias)],
+             "spike": MID_SPIKES[i % len(MID_SPIKES)], "lead0": bool(i % 2), "rlo": rlos[i % len(rlos)],
+             "rhi": _pick([61.0, 290.0], tg, "orhi", kind, i)}
+        c.update(kw)
+        cases.append(c)
+
+    for i, n in enumerate(gen.size_ladder(2000, 300000 if th else 30000, 14 if th else 6, tg + "c03:olen", mined_limit=2)):
+        add("len", n, 6, i, ks[i % 3])
+    for i, p in enumerate(gen.size_ladder(1, 9000 if th else 5000, 24 if th else 12, tg + "c03:oper", mined_limit=4)):
+        add("periods", 120 + _hh(tg, "opn", i) % 300, p, i, [4, 8, 2, 1][i % 4])
+    for j, k in enumerate(ks):
+        pairs = gen.product_pairs(1e5 / k, (4e7 if th else 1.2e7) / k, 7 if th else 3, (4, 3000), (200, 100000 if th else 30000), tg + "c03:otri%d" % k)
+        for i, (p, n) in enumerate(pairs):
+            add("product", n, p, 3 * i + j, k, rlo=[0.47, 3.1, 0.61][i % 3])
+    sz = gen.ladder(1500, 40000 if th else 12000, 8 if th else 4, tg + "c03:ohn")
+    ps = gen.ladder(20, 1500 if th else 400, 8 if th else 4, tg + "c03:ohp")[::-1]
+    for i, (n, p) in enumerate(zip(sz, ps)):
+        add("history", n, p, i, [8, 2][i % 2], rlo=[0.47, 3.1][i % 2], p2=max(3, int(p * 0.6) + 1), xi=0.05)
+    cases.sort(key=lambda c: -(4 if c["kind"] == "history" else 2) * c["n"] * c["min_dt_ratio"] * _est_iter_s(c["p"]))
+    return cases
+
+
+def _object_enum(tier, shard, nshards):
+    return _shard(_object_case_list(tier), shard, nshards)
+
+
+def _read_spectra(ctx, asig):
+    return [np.asarray(ctx.lib(lambda: asig.s_d)), np.asarray(ctx.lib(lambda: asig.s_v)), np.asarray(ctx.lib(lambda: asig.s_a))]
+
+
+@enum_clause(CLAUSES, "mid-range-object", _object_enum, quick_shards=4,
+             rule="AccSignal spectra (constructor + lazy read, gen_response_spectrum with periods / xi / min_dt_ratio given or not, "
+                  "generate_response_spectrum after a cached read) on (a) record-length ladder 2000..30000 (thorough 3e5) x 6 periods, "
+                  "(b) 1..5000 (9000) ascending periods on 120-420 samples, (c) products samples x periods x sub-steps 1e5..1.2e7 (4e7) for "
+                  "min_dt_ratio 2/4/8, (d) histories at 1500..12000 samples x 20..400 periods: lazy read, new min_dt_ratio without "
+                  "periods, new (shorter) period list, new record - every reading checked; smallest period 0.47..12.9 dt so that "
+                  "either term of the step rule decides; with and without leading 0",
+             oracle="reference model: as object-api with the exact long-double series on the sampled rows (first/last, power-of-two "
+                    "seams, hash-chosen): an integer k in [ceil(dt/h*), 2 ceil + 1] exists whose S_d sandwich [no tail, held tail] contains the "
+                    "object's S_d within the C01 bound; S_v == w S_d, S_a in {w^2 S_d, PGA} by the 6-step rule and S_d >= raw S_d on all rows; "
+                    "exact equality with the array function when h* >= dt; when affordable all rows are screened against the array function "
+                    "on the refined record and rows that differ are decided by the object-api sandwich (1e-9)",
+             exhaustive_note="the size ladders of this run (hash of VERIF_SEED), not the whole size range")
+def mid_range_object(case, ctx):
+    n, dt, xi, ratio, via = case["n"], case["dt"], case["xi"], case["min_dt_ratio"], case["via"]
+    ratios = _object_ratios(case)
+    T = ratios * dt
+    P = np.concatenate([[0.0], T]) if case["lead0"] else T.copy()
+    a = _mid_record(n, case["seed"], ratios, case["spike"])
+    ctx.cls("kind=" + case["kind"], "n>=%d" % (10 ** int(math.log10(n))), "p>=%d" % (10 ** int(math.log10(len(P)))),
+            "ratio=%d" % ratio, "lead0" if case["lead0"] else None)
+    ctx.nt(True)
+    if case["kind"] == "history":
+        ctx.cls("cells>=1e%d" % int(math.log10(n * len(P) * ratio)))
+        asig = ctx.lib(eqsig.AccSignal, a, dt, response_times=P)
+        _check_object(ctx, a, dt, P, 0.05, 4, _read_spectra(ctx, asig), case["seed"], " (lazy read)")
+        ctx.lib(asig.generate_response_spectrum, xi=0.05, min_dt_ratio=ratio)
+        _check_object(ctx, a, dt, P, 0.05, ratio, _read_spectra(ctx, asig), case["seed"] + 1, " (after min_dt_ratio=%d without periods)" % ratio)
+        P2 = P[:1 + case["p2"]] if case["lead0"] else P[1:1 + case["p2"]]  # another (shorter) ascending list with another smallest period
+        asig.response_times = P2
+        # lazy read after the explicit request: the default ratio 4 is promised; a finer step is admissible ('no coarser than')
+        _check_object(ctx, a, dt, P2, 0.05, 4, _read_spectra(ctx, asig), case["seed"] + 2, " (lazy read after new response_times)")
+        a2 = _mid_record(n + 7, case["seed"] + 5, ratios, "mid")
+        ctx.lib(asig.reset_values, a2)
+        _check_object(ctx, a2, dt, P2, 0.05, 4, _read_spectra(ctx, asig), case["seed"] + 3, " (lazy read after reset_values)")
+        return
+    ctx.cls("via=" + via)
+    if via == "ctor":
+        ratio, xi = 4, 0.05
+        asig = ctx.lib(eqsig.AccSignal, a, dt, response_times=P)
+    elif via == "gen":
+        asig = ctx.lib(eqsig.AccSignal, a, dt)
+        ctx.lib(asig.gen_response_spectrum, response_times=P, xi=xi, min_dt_ratio=ratio)
+    elif via == "cached-then-ratio":
+        asig = ctx.lib(eqsig.AccSignal, a, dt, response_times=P)
+        _ = ctx.lib(lambda: asig.s_a)
+        ctx.lib(asig.generate_response_spectrum, xi=xi, min_dt_ratio=ratio)
+    elif via == "bare-ratio":  # periods from the constructor, damping default, only the ratio given
+        xi = 0.05
+        asig = ctx.lib(eqsig.AccSignal, a, dt, response_times=P)
+        ctx.lib(asig.gen_response_spectrum, min_dt_ratio=ratio)
+    else:
+        xi = 0.05
+        asig = ctx.lib(eqsig.AccSignal, a, dt)
+        ctx.lib(asig.generate_response_spectrum, response_times=P, min_dt_ratio=ratio)
+    hstar = max(T[0] / 20.0, dt / ratio)
+    sub = 1 if hstar >= dt else int(math.ceil(dt / hstar * (1 - 1e-12)))
+    ctx.cls("cells>=1e%d" % int(math.log10(n * len(P) * sub)), "substeps=%d" % sub)
+    _check_object(ctx, a, dt, P, xi, ratio, _read_spectra(ctx, asig), case["seed"])
+
+
+# --- energy spectra and spectrum intensities ------------------------------------------------------------------------------
+
+def _energy_oracle(ctx, a, dt, T, xi, seed, e_end=None, e_ser=None, uke=None):
+    """The energy sentence of the statement (oracle of clause energy) on every row and every sample: defining sums over the
+    library's own velocity series in long double, row chunks; the exact velocity on the sampled rows."""
+    n = len(a)
+    T = np.asarray(T, dtype=float)
+    p = len(T)
+    if e_end is not None:
+        e_end = np.asarray(e_end)
+        ctx.shape(e_end, (p,), "input energy spectrum")
+    if e_ser is not None:
+        e_ser = np.asarray(e_ser)
+        ctx.shape(e_ser, (p, n), "input energy series")
+    if uke is not None:
+        uke = np.asarray(uke)
+        ctx.shape(uke, (p,), "kinetic energy spectrum")
+        ctx.check(bool(np.all(uke >= 0)), "kinetic energy spectrum negative")
+    _, rv, _ = sdof.response_series(a, dt, T, xi)
+    rv = np.asarray(rv)
+    ald = a.astype(LD)[None, :]
+    sabs_all = np.zeros(p)
+    for i0, i1 in _row_chunks(p, n, 5.0e5):
+        terms = ald * rv[i0:i1].astype(LD) * LD(dt)
+        sabs = np.sum(np.abs(terms), axis=1).astype(float)
+        sabs_all[i0:i1] = sabs
+        tol = EPS * (n + 8) * sabs
+        if e_ser is not None:
+            run = np.cumsum(terms, axis=1)
+            ctx.close(e_ser[i0:i1], run, tol[:, None] + np.zeros((1, n)), "input energy series vs running sum a_i v_i dt (rows %d..)" % i0)
+            last = run[:, -1]
+        else:
+            last = np.sum(terms, axis=1)
+        if e_end is not None:
+            ctx.close(e_end[i0:i1], last, tol, "input energy vs sum a_i v_i dt (rows %d..)" % i0)
+        if uke is not None:
+            ke = rv[i0:i1].astype(LD) ** 2 / 2
+            uref = np.sum(np.abs(np.diff(ke, axis=1)), axis=1)
+            ctx.close(uke[i0:i1], uref, EPS * (n + 8) * np.sum(np.abs(ke), axis=1).astype(float) * 4,
+                      "kinetic energy spectrum vs sum |delta(v^2/2)| (rows %d..)" % i0)
+    if e_end is not None:
+        idx = _sample_rows(p, REF_CELLS // n, seed)
+        _, v, _, sv, tol = _exact_rows(a, dt, T, xi, idx)
+        eref = np.sum(ald * v * LD(dt), axis=1)
+        ctx.close(e_end[idx], eref, tol * sv * float(np.sum(np.abs(a))) * dt + EPS * (n + 8) * sabs_all[idx],
+                  "input energy vs sum over the exact velocity series")
+        neg = e_end < -(EPS * (n + 8) * sabs_all) - core.TINY
+        if np.any(neg):
+            j = int(np.argmax(neg))
+            if ctx.kf("C03-KF1"):
+                ctx.check(bool(np.all(e_end >= -sabs_all * (1 + 1e-12))), "input energy below -sum|a_i v_i|dt")
+            else:
+                ctx.fail("input energy at the end of the record is negative: E=%r for T/dt=%r, xi=%r (sum|a_i v_i|dt=%r)" % (
+                    float(e_end[j]), float(T[j] / dt), xi, float(sabs_all[j])))
+
+
+def _si_oracle(ctx, a, dt, xi, pa, pv, asi=None, vsi=None):
+    """calc_asi / calc_vsi == max of 0.01 * cumulative trapezoid of the pseudo spectrum (/9.81); long-double sums,
+    tolerance eps * (number of periods + 8) * value (all terms are non-negative)."""
+    for name, got, per, col, div in (("calc_asi", asi, pa, 2, 9.81), ("calc_vsi", vsi, pv, 1, 1.0)):
+        if got is None:
+            continue
+        y = np.abs(np.asarray(sdof.pseudo_response_spectra(a, dt, per, xi)[col])).astype(LD)
+        want = float(np.max(LD(0.01) * np.cumsum((y[1:] + y[:-1]) / 2))) / div if len(y) > 1 else None
+        ctx.check(want is not None, "intensity over a single period is undefined")
+        ctx.check(abs(got - want) <= EPS * (len(y) + 8) * want + 1e-12 * want * 0 + core.TINY, "%s %r != %r (%d periods)" % (name, got, want, len(y)))
+
+
+def _energy_case_list(tier):
+    th = tier != "quick"
+    tg = "t:" if th else ""
+    cases = []
+
+    def add(kind, n, p, i, fns, **kw):
+        c = {"kind": kind, "n": int(n), "p": int(p), "fns": list(fns), "seed": _hh(tg, "en", kind, i, n, p) % (2 ** 31 - 1),
+             "dt": _pick(MID_DTS, tg, "edt", kind, i), "xi": _pick([0.0] + MID_XIS, tg, "exi", kind, i),
+             "spike": MID_SPIKES[i % len(MID_SPIKES)], "periods_arg": ["explicit", "attribute"][i % 2]}
+        c.update(kw)
+        cases.append(c)
+
+    for i, n in enumerate(gen.size_ladder(2000, 600000 if th else 80000, 18 if th else 7, tg + "c03:elen", mined_limit=2 if th else 1)):
+        if 4 * n * _est_iter_s(6) <= 2.0:
+            add("len", n, 5, i, ["end", "series", "uke"], template=True)
+        else:
+            add("len", n, 5, i, ["end", "series"], template=True)
+            add("len", n, 5, i, ["uke"], template=True)
+    for i, p in enumerate(gen.size_ladder(1, 9000 if th else 5000, 24 if th else 12, tg + "c03:eper", mined_limit=4)):
+        add("periods", 150 + _hh(tg, "epn", i) % 300, p, i, ["end", "series", "uke"], rlo=_pick([0.53, 2.1, 7.7], tg, "erlo", i),
+            rhi=_pick([61.0, 290.0], tg, "erhi", i))
+    pairs = gen.product_pairs(1e5, 3e7 if th else 8e6, 16 if th else 7, (6, 4000), (300, 150000 if th else 30000), tg + "c03:eprod")
+    for i, (p, n) in enumerate(pairs):
+        kw = dict(rlo=_pick([0.53, 2.1], tg, "eprlo", i), rhi=_pick([61.0, 290.0], tg, "eprhi", i))
+        if 4 * n * _est_iter_s(p) <= 2.0:
+            add("product", n, p, i, ["end", "series", "uke"], **kw)
+        else:
+            add("product", n, p, i, ["end", "series"], **kw)
+            add("product", n, p, i, ["uke"], **kw)
+    # spectrum intensities: default period grids over a record-length ladder; custom grids (step 0.01 s) over a period-count ladder
+    for i, n in enumerate(gen.size_ladder(2000, 300000 if th else 40000, 12 if th else 5, tg + "c03:silen", mined_limit=1)):
+        add("si", n, 0, i, ["asi", "vsi"], dt=_pick([0.01, 0.005, 0.02], tg, "sidt", i), xi=_pick([0.05, 0.0, 0.2], tg, "sixi", i))
+    for i, p in enumerate(gen.size_ladder(2, 6000 if th else 3000, 18 if th else 9, tg + "c03:siper", mined_limit=3)):
+        add("si", 150 + _hh(tg, "sipn", i) % 300, p, i, ["asi", "vsi"], dt=_pick([0.01, 0.005, 0.02], tg, "sipdt", i),
+            xi=_pick([0.05, 0.0, 0.2], tg, "sipxi", i), p0=_pick([0.05, 0.1, 0.013, 0.31], tg, "sip0", i))
+    cases.sort(key=lambda c: -(len(c["fns"]) + 1) * c["n"] * _est_iter_s(c["p"] or 200))
+    return cases
+
+
+def _energy_enum(tier, shard, nshards):
+    return _shard(_energy_case_list(tier), shard, nshards)
+
+
+@enum_clause(CLAUSES, "mid-range-energy", _energy_enum, quick_shards=4,
+             rule="calc_input_energy_spectrum (end value and series) / calc_resp_uke_spectrum on (a) record-length ladder 2000..80000 "
+                  "(thorough 6e5) x 5 periods, (b) 1..5000 (9000) periods on 150-450 samples, (c) products periods x samples 1e5..8e6 (3e7); "
+                  "periods explicit or from the signal; calc_asi / calc_vsi on default grids x record-length ladder 2000..40000 (3e5) and on "
+                  "custom grids of 2..3000 (6000) periods; burst records as in mid-range",
+             oracle="reference model: every row and every sample of the input-energy series == running sum a_i v_i dt, end value == its "
+                    "total, kinetic-energy spectrum == sum |delta(v^2/2)| over the library's own velocity series in long double "
+                    "(eps (n+8) sum|terms|); sampled rows vs the exact velocity (C01 bound); end value >= 0 (C03-KF1 routed); differential: "
+                    "intensities == max(0.01 * cumulative trapezoid of pseudo_response_spectra) in long double (eps (periods+8))",
+             exhaustive_note="the size ladders of this run (hash of VERIF_SEED), not the whole size range")
+def mid_range_energy(case, ctx):
+    n, dt, xi, fns = case["n"], case["dt"], case["xi"], case["fns"]
+    ctx.cls("kind=" + case["kind"], "n>=%d" % (10 ** int(math.log10(n))), "xi=0" if xi == 0 else None, *["fn=" + f for f in fns])
+    ctx.nt(True)
+    if case["kind"] == "si":
+        if case["p"]:
+            pa = pv = case["p0"] + 0.01 * np.arange(case["p"])
+            kw = {"periods": pa}
+            ctx.cls("custom-periods", "p>=%d" % (10 ** int(math.log10(case["p"]))))
+        else:
+            pa, pv, kw = np.arange(0.1, 1.51, 0.01), np.arange(0.1, 2.51, 0.01), {}
+            ctx.cls("default-periods")
+        a = _mid_record(n, case["seed"], pv / dt, case["spike"])
+        asig = eqsig.AccSignal(a, dt)
+        _si_oracle(ctx, a, dt, xi, pa, pv, asi=ctx.lib(im.calc_asi, asig, xi=xi, **kw), vsi=ctx.lib(im.calc_vsi, asig, xi=xi, **kw))
+        return
+    ratios = _mid_ratios(case)
+    T = ratios * dt
+    ctx.cls("p>=%d" % (10 ** int(math.log10(len(T)))), "cells>=1e%d" % int(math.log10(n * len(T))), "periods=" + case["periods_arg"])
+    a = _mid_record(n, case["seed"], ratios, case["spike"])
+    if case["periods_arg"] == "explicit":
+        asig = eqsig.AccSignal(a, dt)
+        kw = {"periods": T}
+    else:
+        asig = eqsig.AccSignal(a, dt, response_times=T)
+        kw = {}
+    e_end = ctx.lib(sdof.calc_input_energy_spectrum, asig, xi=xi, **kw) if "end" in fns else None
+    e_ser = ctx.lib(sdof.calc_input_energy_spectrum, asig, xi=xi, series=True, **kw) if "series" in fns else None
+    uke = ctx.lib(sdof.calc_resp_uke_spectrum, asig, xi=xi, **kw) if "uke" in fns else None
+    _energy_oracle(ctx, a, dt, T, xi, case["seed"], e_end=e_end, e_ser=e_ser, uke=uke)
+
+
+# --- option interactions ----------------------------------------------------------------------------------------------------
+
+def _option_case_list(tier):
+    th = tier != "quick"
+    tg = "t:" if th else ""
+    cases = []
+    i = 0
+    reps = 3 if th else 1
+    for rep in range(reps):
+        for size in (0, 1):
+            # energy spectra: periods (signal attribute | explicit) x xi (omitted | given) x series (omitted | False | True)
+            for per in ("attribute", "explicit"):
+                for xi in (None, 0.0, 0.2):
+                    for series in (None, False, True, "uke"):
+                        i += 1
+                        cases.append({"what": "energy", "periods_arg": per, "xi": xi, "series": series, "i": i,
+                                      "n": [230, 2600][size] + _hh(tg, "optn", i) % 400, "p": [12, 140][size] + _hh(tg, "optp", i) % 30})
+            # intensities: xi (omitted | given) x periods (omitted | given)
+            for xi in (None, 0.0, 0.2):
+                for per in ("default", "custom"):
+                    i += 1
+                    cases.append({"what": "si", "periods_arg": per, "xi": xi, "i": i, "n": [260, 3300][size] + _hh(tg, "optn", i) % 400,
+                                  "p": [9, 260][size] + _hh(tg, "optp", i) % 40})
+            # object: periods (constructor list | constructor range | default range | given to the call) x xi (omitted | given) x
+            # min_dt_ratio (omitted | 1 | 2 | 8) x spelling (gen_ / generate_)
+            for per in ("ctor-list", "ctor-range", "default-range", "given"):
+                for xi in (None, 0.0, 0.2):
+                    for ratio in (None, 1, 2, 8):
+                        i += 1
+                        if size == 1 and (_hh(tg, "optsel", i) % 2):
+                            continue
+                        cases.append({"what": "object", "periods_arg": per, "xi": xi, "min_dt_ratio": ratio, "i": i,
+                                      "call": ["gen_response_spectrum", "generate_response_spectrum"][_hh(tg, "optcall", i) % 2],
+                                      "n": [180, 1300][size] + _hh(tg, "optn", i) % 300, "p": [7, 60][size] + _hh(tg, "optp", i) % 20,
+                                      "lead0": bool(_hh(tg, "optl0", i) % 2) and per in ("ctor-list", "given")})
+    for c in cases:
+        c["seed"] = _hh(tg, "opt", c["i"]) % (2 ** 31 - 1)
+        c["dt"] = _pick([0.01, 0.02, 0.04] if c["what"] == "object" else [0.01, 0.005, 0.02], tg, "optdt", c["i"])
+        c["spike"] = MID_SPIKES[c["i"] % len(MID_SPIKES)]
+    return cases
+
+
+def _option_enum(tier, shard, nshards):
+    return _shard(_option_case_list(tier), shard, nshards)
+
+
+@enum_clause(CLAUSES, "mid-range-options", _option_enum, quick_shards=4,
+             rule="cross product of the optional arguments at two sizes (200-600 and 1300-3700 samples; 7-40 and 60-300 periods): "
+                  "calc_input_energy_spectrum periods (attribute | explicit) x xi (omitted | 0 | 0.2) x series (omitted | False | True) and "
+                  "calc_resp_uke_spectrum periods x xi; calc_asi / calc_vsi xi (omitted | 0 | 0.2) x periods (omitted | custom grid); "
+                  "gen_response_spectrum / generate_response_spectrum periods (constructor list | constructor response_period_range | "
+                  "default range | given) x xi (omitted | 0 | 0.2) x min_dt_ratio (omitted | 1 | 2 | 8), with and without leading 0",
+             oracle="the oracles of mid-range-energy and mid-range-object with the documented defaults (xi 0.05, min_dt_ratio 4, "
+                    "100 periods linearly spaced over response_period_range, default (0.1, 5))",
+             exhaustive_note="the listed cross products at the two sizes")
+def mid_range_options(case, ctx):
+    n, dt, xi, what = case["n"], case["dt"], case["xi"], case["what"]
+    xi_eff = 0.05 if xi is None else xi
+    ctx.cls("what=" + what, "periods=" + case["periods_arg"], "xi=omitted" if xi is None else "xi=given", "n>=1000" if n >= 1000 else "n<1000")
+    ctx.nt(True)
+    if what == "energy":
+        ratios = np.geomspace(0.53, 61.0, case["p"])
+        T = ratios * dt
+        a = _mid_record(n, case["seed"], ratios, case["spike"])
+        kw = {}
+        if case["periods_arg"] == "explicit":
+            asig = eqsig.AccSignal(a, dt)
+            kw["periods"] = T
+        else:
+            asig = eqsig.AccSignal(a, dt, response_times=T)
+        if xi is not None:
+            kw["xi"] = xi
+        series = case["series"]
+        ctx.cls("series=%s" % series)
+        if series == "uke":
+            _energy_oracle(ctx, a, dt, T, xi_eff, case["seed"], uke=ctx.lib(sdof.calc_resp_uke_spectrum, asig, **kw))
+            return
+        if series is not None:
+            kw["series"] = series
+        out = ctx.lib(sdof.calc_input_energy_spectrum, asig, **kw)
+        if series:
+            _energy_oracle(ctx, a, dt, T, xi_eff, case["seed"], e_ser=out)
+        else:
+            _energy_oracle(ctx, a, dt, T, xi_eff, case["seed"], e_end=out)
+        return
+    if what == "si":
+        kw = {}
+        if case["periods_arg"] == "custom":
+            pa = pv = 0.05 + 0.01 * np.arange(case["p"])
+            kw["periods"] = pa
+        else:
+            pa, pv = np.arange(0.1, 1.51, 0.01), np.arange(0.1, 2.51, 0.01)
+        if xi is not None:
+            kw["xi"] = xi
+        a = _mid_record(n, case["seed"], pv / dt, case["spike"])
+        asig = eqsig.AccSignal(a, dt)
+        _si_oracle(ctx, a, dt, xi_eff, pa, pv, asi=ctx.lib(im.calc_asi, asig, **kw), vsi=ctx.lib(im.calc_vsi, asig, **kw))
+        return
+    ratio = case["min_dt_ratio"]
+    ratio_eff = 4 if ratio is None else ratio
+    ctx.cls("ratio=omitted" if ratio is None else "ratio=%d" % ratio, "call=" + case["call"], "lead0" if case["lead0"] else None)
+    per = case["periods_arg"]
+    kw = {}
+    if per in ("ctor-list", "given"):
+        T = np.geomspace([0.47, 3.1, 7.4][case["i"] % 3], 61.0, case["p"]) * dt
+        P = np.concatenate([[0.0], T]) if case["lead0"] else T
+    elif per == "ctor-range":
+        lo = [0.013, 0.05, 0.31][case["i"] % 3]
+        P = np.linspace(lo, lo + 1.7, 100)
+    else:
+        P = np.linspace(0.1, 5, 100)
+    a = _mid_record(n, case["seed"], P[P > 0] / dt, case["spike"])
+    if per == "ctor-list":
+        asig = ctx.lib(eqsig.AccSignal, a, dt, response_times=P)
+    elif per == "ctor-range":
+        asig = ctx.lib(eqsig.AccSignal, a, dt, response_period_range=(float(P[0]), float(P[-1])))
+    else:
+        asig = ctx.lib(eqsig.AccSignal, a, dt)
+        if per == "given":
+            kw["response_times"] = P
+    if xi is not None:
+        kw["xi"] = xi
+    if ratio is not None:
+        kw["min_dt_ratio"] = ratio
+    ctx.lib(getattr(asig, case["call"]), **kw)
+    _check_object(ctx, a, dt, P, xi_eff, ratio_eff, _read_spectra(ctx, asig), case["seed"])
